@@ -58,3 +58,32 @@ func BeforeMutex(point string, mu *sync.Mutex) {
 		})
 	}
 }
+
+// Gate is the generic form of BeforeLock / BeforeRLock / BeforeMutex for call sites that are instrumented mechanically:
+// mu is a pointer to (or a pointer to a pointer to) a sync.Mutex or sync.RWMutex, read selects RLock.
+// Anything else is treated as a plain yield point.
+func Gate(point string, mu any, read bool) {
+	if Handler == nil {
+		return
+	}
+	switch m := mu.(type) {
+	case *sync.Mutex:
+		BeforeMutex(point, m)
+	case **sync.Mutex:
+		BeforeMutex(point, *m)
+	case *sync.RWMutex:
+		if read {
+			BeforeRLock(point, m)
+		} else {
+			BeforeLock(point, m)
+		}
+	case **sync.RWMutex:
+		if read {
+			BeforeRLock(point, *m)
+		} else {
+			BeforeLock(point, *m)
+		}
+	default:
+		Yield(point)
+	}
+}
